@@ -1,2 +1,43 @@
+use crate::vj;
+use libhaystack::defs::namespace::DEFAULT_NS;
+use libhaystack::filter::eval::{Eval, EvalContext};
+use libhaystack::filter::path::Path;
+use libhaystack::filter::{Filter, Filtered, ListFiltered, PathResolver};
+use libhaystack::val::*;
 use serde_json::{json, Value as J};
-pub fn run(api: &str, _case: &J) -> J { json!({"bad_api": api}) }
+use std::collections::BTreeMap;
+
+struct Graph { recs: BTreeMap<String, Dict> }
+impl PathResolver for Graph {
+    fn resolve_for(&self, root: &Dict, path: &Path) -> Value { root.resolve_for(root, path) }
+    fn resolve(&self, _path: &Path) -> Value { Value::Null }
+    fn resolve_ref(&self, reference: &Ref) -> Option<Dict> { self.recs.get(&reference.value).cloned() }
+}
+
+pub fn run(api: &str, case: &J) -> J {
+    match api {
+        "filter_eval" => {
+            let text = String::from_utf8(vj::unhex(case["filter"].as_str().unwrap())).unwrap();
+            let f = match Filter::try_from(text.as_str()) { Ok(f) => f, Err(e) => return json!({"err": e.to_string()}) };
+            let rec = vj::dict_from(&case["rec"]);
+            if case["graph"].is_null() {
+                json!({"ok": rec.filter(&f)})
+            } else {
+                let mut recs = BTreeMap::new();
+                for kv in case["graph"].as_array().unwrap() { recs.insert(vj::uhs(&kv[0]), vj::dict_from(&kv[1])); }
+                let g = Graph { recs };
+                let ctx = EvalContext::make(&rec, &DEFAULT_NS, &g);
+                json!({"ok": f.eval(&ctx)})
+            }
+        }
+        "filter_grid" => {
+            let text = String::from_utf8(vj::unhex(case["filter"].as_str().unwrap())).unwrap();
+            let f = match Filter::try_from(text.as_str()) { Ok(f) => f, Err(e) => return json!({"err": e.to_string()}) };
+            let g = match vj::from(&case["grid"]) { Value::Grid(g) => g, _ => return json!({"bad_case": "grid"}) };
+            let all: Vec<J> = g.filter_all(&f).iter().map(|d| vj::dict_to(d)).collect();
+            let first = Filtered::<Option<&Dict>>::filter(&g, &f).map(vj::dict_to);
+            json!({"ok": {"all": all, "first": first}})
+        }
+        other => crate::apis9::run(other, case),
+    }
+}
